@@ -47,6 +47,11 @@ type C02Case struct {
 	// Warmup: other requests sent to database A before the measured calls (B stays fresh): an answer must
 	// not depend on what the database was asked before.
 	Warmup []C02Warm `json:"warmup,omitempty"`
+	// Prev: content database A's object held BEFORE it received the case's content (through the caching layer's
+	// UpdateDatabase, the only way the engine replaces content in place). The warm-up requests and the measured
+	// request are first sent against that earlier content. "The same database content" must answer the same
+	// whatever the object held and was asked before.
+	Prev []Cmd `json:"previous_content,omitempty"`
 	// ShareOpts: database A's calls (warm-up requests that use the case's options, and the measured ones) all
 	// pass the SAME options value, i.e. the same ContextBoosts map object, as a long-lived caller would
 	ShareOpts bool     `json:"caller_reuses_options_value,omitempty"`
@@ -107,6 +112,27 @@ func genC02(rt *rapid.T) C02Case {
 	c.A = genPlan(rt, "a")
 	c.B = genPlan(rt, "b")
 	c.ShareOpts = rapid.Bool().Draw(rt, "shareopts")
+	if !c.Shipped {
+		switch rapid.IntRange(0, 7).Draw(rt, "prevkind") {
+		case 0: // the same entries rotated: same length, same vocabulary, other positions
+			if len(c.DB) > 1 {
+				c.Prev = append(append([]Cmd(nil), c.DB[1:]...), c.DB[0])
+			}
+		case 1: // other entries, same length
+			c.Prev = genDB(rt, tierN(30, 80))
+			for n0 := len(c.Prev); n0 > 0 && len(c.Prev) < len(c.DB); {
+				c.Prev = append(c.Prev, c.Prev[len(c.Prev)%n0])
+			}
+			if len(c.Prev) > len(c.DB) {
+				c.Prev = c.Prev[:len(c.DB)]
+			}
+		case 2: // other entries, other length
+			c.Prev = genDB(rt, 12)
+		}
+		if rapid.IntRange(0, 2).Draw(rt, "entangle") == 0 {
+			c.Opts = entangleBoosts(rt, c.Opts, c.Query)
+		}
+	}
 	if !c.Shipped && rapid.IntRange(0, 2).Draw(rt, "haswarm") == 0 {
 		c.Warmup = rapid.SliceOfN(rapid.Custom(func(rt *rapid.T) C02Warm {
 			w := C02Warm{Query: c.Query, Opts: c.Opts, Entry: c.Entry}
@@ -185,7 +211,7 @@ func c02Search(db *database.Database, entry int, q string, o database.SearchOpti
 }
 
 // observe loads the files under one order plan and searches twice.
-func c02Observe(c C02Case, main, personal []byte, plan OrderPlan, warm []C02Warm) c02Obs {
+func c02Observe(c C02Case, main, personal []byte, plan OrderPlan, warm []C02Warm, prev []byte) c02Obs {
 	var ob c02Obs
 	disk := simos.NewDisk()
 	simos.Mount(disk, nil)
@@ -207,6 +233,13 @@ func c02Observe(c C02Case, main, personal []byte, plan OrderPlan, warm []C02Warm
 		ob.LoadErr = err.Error()
 		return ob
 	}
+	var cdb *database.CachedDatabase
+	if prev != nil {
+		disk.WriteRaw("/data/prev.yml", prev, 0o644)
+		if pdb, perr := database.LoadDatabase("/data/prev.yml"); perr == nil {
+			cdb = database.NewCachedDatabase(pdb)
+		}
+	}
 	body := func() {
 		shared := c.Opts.toDB()
 		if shared.ContextBoosts == nil && c.ShareOpts {
@@ -217,6 +250,19 @@ func c02Observe(c C02Case, main, personal []byte, plan OrderPlan, warm []C02Warm
 				return shared
 			}
 			return o.toDB()
+		}
+		if cdb != nil {
+			// the object first serves the earlier content, then receives the case's content in place
+			old := cdb.Database
+			for _, w := range append(append([]C02Warm(nil), warm...), C02Warm{Query: c.Query, Opts: c.Opts, Entry: c.Entry}) {
+				func() {
+					defer func() { _ = recover() }()
+					_ = c02Search(old, w.Entry, w.Query, pick(w.Opts))
+					_ = old.GetSuggestions(c.Suggest, c.NSuggest)
+				}()
+			}
+			cdb.UpdateDatabase(db.Commands)
+			db = cdb.Database
 		}
 		for _, w := range warm {
 			func() {
@@ -372,8 +418,13 @@ func runC02(c C02Case) *Outcome {
 			personal = yamlOf(c.Personal)
 		}
 	}
-	a := c02Observe(c, main, personal, c.A, c.Warmup)
-	b := c02Observe(c, main, personal, c.B, nil)
+	var prev []byte
+	if len(c.Prev) > 0 {
+		prev = yamlOf(c.Prev)
+		o.Probes["c02.object_held_other_content_before"] = 1
+	}
+	a := c02Observe(c, main, personal, c.A, c.Warmup, prev)
+	b := c02Observe(c, main, personal, c.B, nil, nil)
 	if len(c.Warmup) > 0 {
 		o.Probes["c02.warmed_up"] = 1
 	}
@@ -403,7 +454,11 @@ func runC02(c C02Case) *Outcome {
 		return fail("repeat:"+diffKind(b.First, b.Second), "two consecutive identical calls on one loaded database differ:\n   1st %s\n   2nd %s", resString(b.First), resString(b.Second))
 	}
 	if !resEqual(a.First, b.First) {
-		return fail("reload:"+diffKind(a.First, b.First), "the same files loaded twice (a different map iteration order each time) answer differently:\n   A %s\n   B %s", resString(a.First), resString(b.First))
+		hist := ""
+		if len(c.Prev) > 0 {
+			hist = fmt.Sprintf("; database A's object held %d other entries before and received this content through UpdateDatabase", len(c.Prev))
+		}
+		return fail("reload:"+diffKind(a.First, b.First), "the same content loaded twice (a different map iteration order each time%s) answers differently:\n   A %s\n   B %s", hist, resString(a.First), resString(b.First))
 	}
 	if strings.Join(a.Sugg, "\x00") != strings.Join(b.Sugg, "\x00") {
 		return fail("suggest", "GetSuggestions(%q, %d) differs between two loads of the same files:\n   A %q\n   B %q", c.Suggest, c.NSuggest, a.Sugg, b.Sugg)
